@@ -65,7 +65,10 @@ def check_model_transition_names(s: Tuple[bool, bool], f: Tuple[bool, bool, bool
     """
     only a function called exactly next_<state> counts as the transition of a state: functions named
     like the state itself, "next_" or "<x>next_<state>" do not make a state without transition acceptable
-    post: _ == ((not s[0] or f[0]) and (not s[1] or f[1]))
+    (accepted => every state has its next_ function); and a model whose states all have their next_
+    function is accepted unless it also has a function named like a state (that shape is a known finding
+    of C12 - rejecting it up front would be a legitimate repair, so nothing is claimed about it)
+    post: ((not _) or ((not s[0] or f[0]) and (not s[1] or f[1]))) and (_ or not ((not s[0] or f[0]) and (not s[1] or f[1])) or f[2] or f[3])
     """
     states = {n: G for n, on in zip(SP, s) if on}
     funcs = {"utility": _f} | {n: _f for n, on in zip(FP2, f) if on}
